@@ -7,11 +7,15 @@ import AmaranthVerif.Spec.Cdc
 
 One request per line:
 
-* `(ff stages width init i0 (ev*))`      → `model=v,v,… spec=v,v,… state=…`
+* `(ff stages width signed owidth init i0 resetless asyncdom (rev*))`
+                                         → `model=v,v,… spec=v,v,… dirty=b,b,… state=…`
+  (`signed`, `resetless`, `asyncdom` are 1 or 0; a `rev` is an event, `R` (raise the reset of the
+  output domain) or `r` (release it); `dirty` says whether some stage differs from `init`)
 * `(async stages pos i0 (ev*))`          → `model=b,b,… spec=b,b,… state=…`   (`pos` is 1 or 0)
 * `(pulse stages (ev*))`                 → `model=… spec=… spaced=… pulses=N high=N idle=N state=…`
 * `(ctor stages <int|none>)`             → `model=<kind> spec=<kind>`
 * `(ctor async <int|none> wi wo edgeok)` → `model=<kind> spec=<kind>`
+* `(elab <ff|async|reset|pulse> asyncpos negdomain)` → `model=<ok|DomainRequirementFailed> spec=…`
 
 An event is `i` (input edge), `o` (output edge), `b` (both) or a number (drive the input).  The
 value lists have one entry for the empty schedule and one after every event.  `state` is the model
@@ -31,17 +35,36 @@ def parseEvs : Sexp → Option (List Ev)
   | .list xs => xs.mapM parseEv
   | _ => none
 
+def parseREv : Sexp → Option REv
+  | .atom "R" => some (.rst 1)
+  | .atom "r" => some (.rst 0)
+  | s => (parseEv s).map REv.ev
+
+def parseREvs : Sexp → Option (List REv)
+  | .list xs => xs.mapM parseREv
+  | _ => none
+
 def commas (xs : List String) : String := ",".intercalate xs
 def b01 (b : Bool) : String := if b then "1" else "0"
 def bits (bs : List Bool) : String := String.join (bs.map b01)
 
 /-- states after the empty schedule and after every event -/
-def scan {σ : Type} (f : σ → Ev → σ) (s : σ) : List Ev → List σ
+def scan {σ ε : Type} (f : σ → ε → σ) (s : σ) : List ε → List σ
   | [] => [s]
   | e :: es => s :: scan f (f s e) es
 
 def ctorName : Ctor → String
   | .ok => "ok" | .typeError => "TypeError" | .valueError => "ValueError"
+
+def elabName : Elab → String
+  | .ok => "ok" | .domainRequirementFailed => "DomainRequirementFailed"
+
+def parsePrim : Sexp → Option Prim
+  | .atom "ff" => some .ffSync
+  | .atom "async" => some .asyncFFSync
+  | .atom "reset" => some .resetSync
+  | .atom "pulse" => some .pulseSync
+  | _ => none
 
 def parseStages : Sexp → Option (Option Int)
   | .atom "none" => some none
@@ -53,13 +76,17 @@ def respond (line : String) : String :=
   | some sx =>
     let r : Option String :=
       match sx with
-      | .list [.atom "ff", n, w, init, i0, evs] => do
-          let n ← Sexp.toNat? n; let w ← Sexp.toNat? w; let init ← Sexp.toInt? init
-          let i0 ← Sexp.toNat? i0; let evs ← parseEvs evs
-          let ms := scan (Model.ffStep w) (Model.ffInit n w init i0) evs
-          let ss := scan (FFObs.step w) (FFObs.start w i0) evs
-          let last := ms.getLast?.getD (Model.ffInit n w init i0)
-          some s!"model={commas (ms.map fun s => toString s.out)} spec={commas (ss.map fun r => toString (r.out n w init))} state={last.inp}/{commas (last.flops.map toString)}"
+      | .list [.atom "ff", n, w, sg, wo, init, i0, rl, ad, evs] => do
+          let n ← Sexp.toNat? n; let w ← Sexp.toNat? w; let sg ← Sexp.toNat? sg
+          let wo ← Sexp.toNat? wo; let init ← Sexp.toInt? init
+          let i0 ← Sexp.toNat? i0; let rl ← Sexp.toNat? rl; let ad ← Sexp.toNat? ad
+          let evs ← parseREvs evs
+          let sg := sg != 0; let rl := rl != 0; let ad := ad != 0
+          let ms := scan (Model.ffrStep w init rl ad) (Model.ffrInit n w init i0) evs
+          let ss := scan (FFRObs.step w (!rl) ad) (FFRObs.start w i0) evs
+          let last := ms.getLast?.getD (Model.ffrInit n w init i0)
+          let clean := List.replicate n (Model.signalInit w init)
+          some s!"model={commas (ms.map fun s => toString (Model.extendTo sg w wo s.last))} spec={commas (ss.map fun r => toString (delivered sg w wo (r.out n w init)))} dirty={commas (ms.map fun s => b01 (s.flops != clean))} state={last.inp}/{b01 last.rst}/{commas (last.flops.map toString)}"
       | .list [.atom "async", n, pos, i0, evs] => do
           let n ← Sexp.toNat? n; let pos ← Sexp.toNat? pos; let i0 ← Sexp.toNat? i0
           let evs ← parseEvs evs
@@ -82,6 +109,9 @@ def respond (line : String) : String :=
           let s ← parseStages s; let wi ← Sexp.toNat? wi; let wo ← Sexp.toNat? wo
           let e ← Sexp.toNat? e
           some s!"model={ctorName (Model.asyncCtor s wi wo (e != 0))} spec={ctorName (asyncCtor s wi wo (e != 0))}"
+      | .list [.atom "elab", p, pos, neg] => do
+          let p ← parsePrim p; let pos ← Sexp.toNat? pos; let neg ← Sexp.toNat? neg
+          some s!"model={elabName (Model.elaborate p (pos != 0) (neg != 0))} spec={elabName (elabContract p (neg != 0))}"
       | _ => none
     r.getD "error bad-request"
 
